@@ -12,6 +12,7 @@ TEXT = {
  "C09": ("proof", "Over the reals: doubleArea1 = trapezoid sum = shoelace sum for closed rings (telescoping lemma by induction), Length = sum of segment lengths, additivity over the parts of level-2 geometries, zero measures for points and lines, and no panic on any well-formed geometry incl. MultiPolygons with empty polygons.", "5/C09"),
  "C10": ("proof", "OrientationIndex returns the sign of the exact orientation determinant: (1) sign logic over the reals - the filter returns sgn((Ox-Px)(Ey-Py)-(Oy-Py)(Ex-Px)) or declines, the big-number branch evaluates (E-O)x(P-E), a polynomial identity links the two forms, antisymmetry and cyclic invariance are lemmas; (2) exactness of the big-number branch by precision accounting - every SetFloat64/Add/Sub/Mul has a proved [exact] precondition (receiver precision >= bits needed, from grid/magnitude exponents propagated through the five operations), for all finite float64 inputs.", "5/C10"),
  "C11": ("proof", "Over the reals: SignOfDet2x2 returns the sign of x1*y2-x2*y1 at every one of its returns (normalisation blocks and each half-step of the loop preserve sign*sgn(det): loop invariant); countSegment reports the point on the edge only if it is and adds exactly the indicator of 'edge crosses the open ray to +x' (half-open straddle rule, crossing abscissa via the determinant); LocatePointInRing: Boundary iff the point is on an edge (modulo the first-listed endpoint of an edge, which a closed ring lists again), else Interior iff the crossing count is odd (loop invariant against a recursive crossing-sum, monotonicity lemma by induction); IsPointInRing, IsOnLine and PointIntersectsLine agree with the on-segment predicate; per-edge symmetry lemmas.", "5/C11"),
+ "C13": ("proof", "What contracts decide about the hull code: ConvexHullFlat / getConvexHull never write memory reachable from the caller (frame obligations: the arrays handed to the in-place sort and to the scan are the de-duplicated copy or arrays allocated in the call), every coordinate read exists (the scan is entered only with at least three de-duplicated coordinates; UniqueCoords, the octagon code, padArray3, cleanRing, lineOrPolygon and the coordinate stack stay inside their slices for every whole-coordinate input), results are non-nil geometries for non-empty input.", "5/C13"),
  "C14": ("proof", "Over the reals: SignedArea returns half of its telescoping sum, which equals minus the shoelace sum for a closed ring (clockwise positive; induction lemma); point centroid = arithmetic mean of the coordinates; line centroid accumulators = total length and length-weighted midpoint sums, GetCentroid their quotient; polygon centroid: addTriangle / addShell / addHole accumulate the triangle-fan area and centroid sums of each ring with one sign per ring, the fan area equals the shoelace sum independent of the base point for closed rings (lemma), GetCentroid = cg3/(3 areasum2) with the zero-area fallback to the line centroid; all index arithmetic in range.", "5/C14"),
  "C15": ("proof", "Over the reals: xy point-segment distance is <= the distance to every point of the segment and attained at the clamped projection (forall/exists form, incl. zero-length segments); perpendicular distance likewise over the whole line; point-linestring = fold of point-segment minima (loop invariant); 2D segment-segment = 0 exactly when the Cramer parameters lie in [0,1]^2 (a common point, lemma) else the least endpoint-segment distance; 3D point-segment as 2D; 3D segment-segment: stationary point of the Gram form when inside the unit square (global minimum by lemma), else least endpoint-segment distance; every division/sqrt argument proved safe (never NaN).", "5/C15"),
  "C17": ("proof", "Frame obligations (every heap store targets memory allocated inside the call; callees contribute only their proved modifies clauses) for the non-mutating entry points under contract: measures, bounds and predicates, coordinate accessors, Clone, 2D/3D distances, WKB/EWKB decoders and wkbcommon readers, IGC decoder and encoder; plus a whole-repository sweep showing that no library code assigns, increments or takes the address of a package-level variable.", "5/C17"),
